@@ -57,7 +57,7 @@ func (e *Engine) checkImmutable() []string {
 						return
 					}
 					key := n.Obj().Pkg().Path() + "." + n.Obj().Name() + "." + sel.Sel.Name
-					if want[key] && !ctor {
+					if want[key] && (!ctor || e.db.NonNil[key]) {
 						bad = append(bad, key+" assigned in "+fd.Name.Name+" at "+posStr(e.fset, lhs.Pos()))
 					}
 				}
@@ -77,6 +77,103 @@ func (e *Engine) checkImmutable() []string {
 					return true
 				})
 			}
+		}
+	}
+	return bad
+}
+
+// checkNonNil verifies syntactically, over all loaded packages, what a `nonnil Type.field`
+// directive relies on: every composite literal of Type sets the field to the result of a call of
+// a constructor (a function whose name starts with New/new) or to &literal; Type is never created
+// by new(Type), by a var declaration without initialiser, or as an array/slice element or struct
+// field by value.  (That the field is never assigned afterwards is checked by checkImmutable.)
+func (e *Engine) checkNonNil() []string {
+	if len(e.db.NonNil) == 0 {
+		return nil
+	}
+	fieldsOf := map[string][]string{} // pkg.Type -> fields
+	for k := range e.db.NonNil {
+		i := strings.LastIndex(k, ".")
+		fieldsOf[k[:i]] = append(fieldsOf[k[:i]], k[i+1:])
+	}
+	typeKey := func(t types.Type) string {
+		if t == nil {
+			return ""
+		}
+		n, ok := types.Unalias(t).(*types.Named)
+		if !ok || n.Obj().Pkg() == nil {
+			return ""
+		}
+		return n.Obj().Pkg().Path() + "." + n.Obj().Name()
+	}
+	goodValue := func(v ast.Expr) bool {
+		switch u := unparen(v).(type) {
+		case *ast.CallExpr:
+			name := ""
+			switch f := unparen(u.Fun).(type) {
+			case *ast.Ident:
+				name = f.Name
+			case *ast.SelectorExpr:
+				name = f.Sel.Name
+			}
+			return strings.HasPrefix(name, "New") || (strings.HasPrefix(name, "new") && name != "new")
+		case *ast.UnaryExpr:
+			if u.Op.String() == "&" {
+				_, ok := unparen(u.X).(*ast.CompositeLit)
+				return ok
+			}
+		}
+		return false
+	}
+	var bad []string
+	for _, p := range e.pkgs {
+		for _, f := range p.Syntax {
+			ast.Inspect(f, func(n ast.Node) bool {
+				switch u := n.(type) {
+				case *ast.CompositeLit:
+					tk := typeKey(p.TypesInfo.TypeOf(u))
+					fs, ok := fieldsOf[tk]
+					if !ok {
+						return true
+					}
+					for _, fld := range fs {
+						found := false
+						for _, el := range u.Elts {
+							kv, ok := el.(*ast.KeyValueExpr)
+							if !ok {
+								continue
+							}
+							if id, ok := kv.Key.(*ast.Ident); ok && id.Name == fld {
+								found = goodValue(kv.Value)
+							}
+						}
+						if !found {
+							bad = append(bad, tk+"."+fld+" not set to a constructor result in the literal at "+posStr(e.fset, u.Pos()))
+						}
+					}
+				case *ast.CallExpr:
+					if id, ok := unparen(u.Fun).(*ast.Ident); ok && id.Name == "new" && len(u.Args) == 1 {
+						if tk := typeKey(p.TypesInfo.TypeOf(u.Args[0])); fieldsOf[tk] != nil {
+							bad = append(bad, tk+" created zero-valued by new() at "+posStr(e.fset, u.Pos()))
+						}
+					}
+				case *ast.ValueSpec:
+					if u.Type != nil && len(u.Values) == 0 {
+						if tk := typeKey(p.TypesInfo.TypeOf(u.Type)); fieldsOf[tk] != nil {
+							bad = append(bad, tk+" declared zero-valued at "+posStr(e.fset, u.Pos()))
+						}
+					}
+				case *ast.ArrayType:
+					if tk := typeKey(p.TypesInfo.TypeOf(u.Elt)); fieldsOf[tk] != nil {
+						bad = append(bad, tk+" used by value as an element type at "+posStr(e.fset, u.Pos()))
+					}
+				case *ast.Field:
+					if tk := typeKey(p.TypesInfo.TypeOf(u.Type)); fieldsOf[tk] != nil {
+						bad = append(bad, tk+" used by value as a field/parameter at "+posStr(e.fset, u.Pos()))
+					}
+				}
+				return true
+			})
 		}
 	}
 	return bad
